@@ -376,6 +376,10 @@ func runMessages(c *mon.C, ms []msg, side ref.Side, nplans int, payloadMarks ...
 			// every third run of the raw reader: its owner validates frame headers itself (all of them are valid here)
 			// and has switched the reader's own header check off - which is no word about the UTF-8 check
 			o.SkipCheck = o.Entry == "reader" && (c.I+pi*2+ei)%3 == 1
+			// every fourth run of the raw reader takes unfragmented messages with ONE io.ReadFull of exactly the
+			// announced length (no Read at all for an empty message): the reader never sees the end of that message
+			// and the next one is judged by its own header all the same
+			o.ExactRead = o.Entry == "reader" && o.Discard == nil && (c.I+pi+ei*3)%4 == 2
 			// the last plan: the transport sits behind another kind of io.Reader
 			o.Wrap = ""
 			if pi == nplans-1 && nplans > 1 && len(payloadMarks) == 0 {
